@@ -93,12 +93,18 @@ CHECKS = {
   text=("On the model of the document handling of server.rs (didOpen / didChange with its per-change error path / didClose / position conversion "
         "of requests): fromPos_never_panics, applyChange_never_panics, step_total (no message crashes the server from any normalised store below "
         "the u32 size limit), step_normal, one_answer_per_request, unappliable_dropped (after a didChange the document is the result of ALL its "
-        "changes or absent) (Props/C15.lean). Tie: seeded sequences over 5 documents (package files, free-standing file, untitled:, never "
+        "changes or absent); session layer (which documents the editor holds open - didOpen / didClose; one FileEvent of didChangeWatchedFiles "
+        "with the state of the file on disk as a parameter: regular / gone / unreadable; loading of a package's files): sstep_total and srun_total "
+        "(no message and no file event crashes the server, along whole sessions), watched_open_untouched (the editor's text wins over the disk), "
+        "close_keeps_text, vanished_forgotten + forgotten_harmless (a file that vanishes is forgotten; a change that still arrives for it is "
+        "ignored and touches no other document, a request is answered with an error), changed_reread (Props/C15.lean). Tie: seeded sequences over the documents (package files, free-standing file, untitled:, never "
         "opened) with valid and invalid changes/positions are sent to the real binary; liveness after every message, one response per id, final "
         "texts read back through glas/syntaxTree, compared with the model's prediction and with an editor-side oracle; the rest of the registered surface "
-        "(rename, ranged semantic tokens, formatting, didSave, didChangeConfiguration, didChangeWatchedFiles with files that change or vanish) is driven "
-        "with the oracle only. PARTIAL: OS, tokio and async-lsp behaviour is not modelled. Six genuine defects found and repaired (fix: commits)."),
-  note=TB + "Modelled, not verified: the document store as an association list, package loading as synthetic opens of the on-disk files; requests are "
+        "(rename, ranged semantic tokens, formatting, didSave, didChangeConfiguration, notifications without a handler) is driven "
+        "with the oracle only; file events (package files rewritten, deleted or merely announced while closed, never opened or held open; missing files; "
+        "directories; non-file URIs) are part of the modelled grammar; scripted sessions: a document is edited, closed, its file vanishes, another "
+        "change for it arrives and a never-seen document is opened. PARTIAL: OS, tokio and async-lsp behaviour is not modelled. Six genuine defects found and repaired (fix: commits)."),
+  note=TB + "Modelled, not verified: the document store as an association list, package loading as `loaded` events for the on-disk files; the disk itself is a parameter of the events; requests are "
        "modelled only up to the position conversion.", ref="5.C15, 4.6"),
  "C03": dict(
   technique="Lean 4 locality theorems for top-level items over the xlate-generated parser model + damage oracle on the implementation",
@@ -241,13 +247,19 @@ CHECKS = {
   note=TB + "Modelled, not verified: u32 arithmetic as checked, partition_point as takeWhile on the sorted line starts, FxHashMap as a total map.",
   ref="5.C14, 4.2"),
  "C19": dict(
-  technique="Lean 4 proof of the relative encoder over M-text + exhaustive correspondence; tagging half by differential on real highlights",
+  technique="Lean 4 proof of the relative encoder over M-text + exhaustive correspondence; tagging half: Lean decision of the tag table extracted by xlate from semantic_highlighting.rs + differential on real highlights",
   text=("Lean theorems: for sorted, disjoint, single-line, boundary-aligned highlights the encoder never fails and the LSP decoding of "
         "its output is exactly (line, UTF-16 start, UTF-16 length, type), strictly increasing and inside the line (Props/C19.lean). Tie: "
         "model vs real to_semantic_tokens on all documents up to length 4 x all lists of <= 2 (3 thorough) highlights, plus malformed "
-        "lists. Which identifiers get which tag is checked on the implementation's real highlight output only (partial)."),
+        "lists. Tagging half (Props/C19Tags.lean): xlate extracts the table of token_tag from semantic_highlighting.rs on every run (which "
+        "Definition a name reference resolves to gives which tag, the tag of a function-typed local, the tag of a constructor's own name); "
+        "glas_tag_table is decided on the regenerated table and tag_function_iff / tag_constructor_iff / tag_only_these state the decision "
+        "outright: an identifier is tagged function exactly when it refers to a function or a function-typed local, constructor exactly when "
+        "it refers to a constructor or is a constructor's name in its declaration, nothing else is tagged; module_never_tagged is the recorded "
+        "finding. Tie: for every identifier of generated workspaces whose resolution is known by construction the model's tag must be the tag "
+        "in the implementation's real highlight output; the name resolution itself is the subject of C05 (partial)."),
   note=TB + "Modelled, not verified: token type indices as numbers (order of SEMANTIC_TOKEN_TYPES), u32 subtraction as checked. The tagging "
-       "half (function/constructor/module identifiers) is tie-only.",
+       "half speaks about classify_node's answer, which is taken from the generator's construction (and from C05), not modelled here.",
   ref="5.C19, 4.2"),
 }
 
